@@ -26,18 +26,22 @@ class Frame:
         self.events = []
         self.flow = None              # None | 'break' | 'continue' | 'return'
         self.ambiguous = []
+        self.retval = UNKNOWN
+        self.rhs = None
 
     def fork(self):
         f = Frame(self.env, self.members)
         f.events = list(self.events)
         f.ambiguous = list(self.ambiguous)
+        f.retval = self.retval
         return f
 
 
 class MiniExec:
-    def __init__(self, on_call=None, max_iter=4096, on_store=None):
+    def __init__(self, on_call=None, max_iter=4096, on_store=None, on_load=None):
         self.on_call = on_call
         self.on_store = on_store
+        self.on_load = on_load        # on_load(array_or_member_expr, frame, self) -> int | None
         self.max_iter = max_iter
         self.steps = 0
 
@@ -56,6 +60,10 @@ class MiniExec:
         if k == "MemberExpr":
             if e.member in fr.members:
                 return fr.members[e.member]
+            if self.on_load:
+                r = self.on_load(e, fr, self)
+                if r is not None:
+                    return r
             return UNKNOWN
         if e.cv is not None and k not in ("BinaryOperator", "UnaryOperator", "ConditionalOperator"):
             return e.cv
@@ -63,7 +71,7 @@ class MiniExec:
             op = e.op
             if op == "=":
                 v = self.val(e.kids[1], fr)
-                self.assign(e.kids[0], v, fr)
+                self.assign(e.kids[0], v, fr, e.kids[1])
                 return v
             if op == ",":
                 self.val(e.kids[0], fr)
@@ -143,6 +151,10 @@ class MiniExec:
                     return r
             return UNKNOWN
         if k == "ArraySubscriptExpr":
+            if self.on_load:
+                r = self.on_load(e, fr, self)
+                if r is not None:
+                    return r
             self.scan_calls(e.kids[1], fr)
             return UNKNOWN
         if k == "StmtExpr":
@@ -155,11 +167,12 @@ class MiniExec:
             return
         self.val(e, fr)
 
-    def assign(self, lhs, v, fr):
+    def assign(self, lhs, v, fr, rhs=None):
         l = lhs.strip()
         if l.k == "DeclRefExpr":
             fr.env[l.refname] = v
         elif self.on_store:
+            fr.rhs = rhs
             self.on_store(l, v, fr, self)
 
     # ---- statements ---------------------------------------------------------
@@ -291,7 +304,7 @@ class MiniExec:
             return [fr]
         if k == "ReturnStmt":
             if s.kids and s.kids[0] is not None:
-                self.val(s.kids[0], fr)
+                fr.retval = self.val(s.kids[0], fr)
             fr.flow = "return"
             return [fr]
         if k == "GotoStmt":
@@ -304,3 +317,21 @@ class MiniExec:
         # expression statement
         self.val(s, fr)
         return [fr]
+
+
+    # ---- calls into small library helpers -----------------------------------
+    def call_function(self, g, argvals, fr, depth=0):
+        """interpret the body of library function g with integer arguments; the events of the callee are appended to
+        the caller's frame.  Returns the integer result, or UNKNOWN when the callee's forks disagree."""
+        if g.body is None or depth > 4:
+            return UNKNOWN
+        env = {}
+        for p, v in zip(g.params, argvals):
+            env[p.get("name")] = v
+        sub = Frame(env, fr.members)
+        sub.events = fr.events          # shared: callee events are the caller's events
+        frames = self.exec(g.body, [sub])
+        rets = {f.retval for f in frames}
+        if len(frames) > 1:
+            fr.ambiguous.append(g.line)
+        return rets.pop() if len(rets) == 1 else UNKNOWN
